@@ -1069,13 +1069,25 @@ pub fn arc_prog(s: &mut Src, p: &ArcParams) -> Program {
                     track_new[kx] = true;
                     Op::TrackNew { k: kx as u8 }
                 }
-                2 => Op::TrackDrop { k: kx as u8 },
+                2 => {
+                    if s.chance(1, 4) {
+                        Op::TrackDropUnwind { k: kx as u8 }
+                    } else {
+                        Op::TrackDrop { k: kx as u8 }
+                    }
+                }
                 3 if p.leaks => Op::TrackForget { k: kx as u8 },
                 4 if !alloc_new[kx] => {
                     alloc_new[kx] = true;
                     Op::Alloc { k: kx as u8 }
                 }
-                _ => Op::Dealloc { k: kx as u8 },
+                _ => {
+                    if s.chance(1, 4) {
+                        Op::DeallocUnwind { k: kx as u8 }
+                    } else {
+                        Op::Dealloc { k: kx as u8 }
+                    }
+                }
             };
             threads[t].push(op);
             made += 1;
@@ -1094,7 +1106,11 @@ pub fn arc_prog(s: &mut Src, p: &ArcParams) -> Program {
             }
             2 | 3 if handles[t][x] >= 1 => {
                 handles[t][x] -= 1;
-                Op::ArcDrop { x: xb }
+                if s.chance(1, 5) {
+                    Op::ArcDropUnwind { x: xb }
+                } else {
+                    Op::ArcDrop { x: xb }
+                }
             }
             4 if p.inspect => Op::ArcCount { x: xb },
             5 if p.inspect => Op::ArcGetMut { x: xb },
